@@ -19,7 +19,7 @@ K_ONE = {
              ('(a + b)', 'expr'), ('x := y', 'expr'), ('f(a,\n  b)', 'expr'), ("'é'", 'expr'), ('(p, # c9\n q)', 'expr'), ('yield', 'expr'),
              ('*s', 'expr'), ('not a', 'expr'), ('[i for i in j]', 'expr'), ('a.b[c]', 'expr'), ('-1', 'expr')],
     'stmt': [('pass', 'stmt'), ('x = 1', 'stmt'), ('if a:\n    b\nelse:\n    c', 'stmt'), ('def g(): pass', 'stmt'),
-             ('y = 2  # cmt', 'stmt'), ('# pre\nz = 3', 'stmt'), ("'''doc'''", 'stmt'), ('for i in j:\n  k', 'stmt'),
+             ('y = 2  # cmt', 'stmt'), ('# pre\nz = 3', 'stmt'), ("'''doc \\\n  more'''", 'stmt'), ('for i in j:\n  k', 'stmt'),
              ('é = "ü"', 'stmt'), ('@d\nclass C:\n    v = 1', 'stmt'), ('return', 'stmt'), ('import m', 'stmt'),
              ('with a as b: pass', 'stmt'), ('try:\n    a\nfinally:\n    b', 'stmt'), ('x; y', 'stmts')],
     'pattern': [('a', 'pattern'), ('1', 'pattern'), ('[a, b]', 'pattern'), ('a | b', 'pattern'),
